@@ -1,6 +1,7 @@
 """C02 — curated layout follows the Pretext edits to within three texel widths."""
 import remap_lib as R
 
+EXTRA_ANCHORS = ['assembly/scripts/pretext_to_asm.py']      # files outside the property's anchors whose change escalates the quick budget (T3)
 LEVEL = "proof"
 RULE = ('PretextView-model edit scripts (T floor/ceil, sub-texel scaffolds present/absent, cuts on the texel grid with pieces >= 2 texels, any permutation/orientation/grouping, painted or not, forward and reverse input contigs, contigs 1..3000 bp incl. a small-geometry stream of 1..40 bp contigs) x texel sizes 1..2326.1. Non-trivial = distinct (#pieces, cuts, breaks, joins, #assemblies | error).')
 TRUSTED = ['correspondence harness props/C02.py + remap_lib.py: real BuildAssembly pipeline vs Lean `remap` on the projection `proj_rows`', 'modelled not verified: Python dict/set/sort semantics as in Model/Py.lean; object identity by object ids; PretextView edit-script model (spec side)']
